@@ -658,6 +658,16 @@ def run_generation(gen_spec, index):
     for s in gen_spec.get("services", []):
         if s.get("create") == "before":
             do_service(world, s["id"], by="main-before-accept")
+    if gen_spec.get("ticker"):
+        # a plain harness thread ticking every 10 ms: tells a starved machine from a stalled event loop
+        def tick():
+            n = 0
+            while not world.accept_done.is_set() and n < 3000:
+                LOG("tick", gen=index, n=n)
+                n += 1
+                time.sleep(0.01)
+
+        threading.Thread(target=tick, name="ticker", daemon=True).start()
     thread = threading.Thread(target=driver, args=(world,), name="driver", daemon=True)
     thread.start()
     LOG("call", op="accept", gen=index)
